@@ -309,6 +309,18 @@ class CopyAnalysis:
                 return 'fresh', f'{short}(...) constructs a new object'
             if isinstance(f, ast.Name) and f.id[:1].isupper():
                 return 'fresh', f'{f.id}(...) constructs a new object'
+            # a method of the object itself (`return self.__getstate__()`): what that method returns
+            if isinstance(f, ast.Attribute) and dotted(f.value) == selfname and depth < 3:
+                r0 = resolve_method(self.mod, self.cls, f.attr)
+                if r0 is not None:
+                    rets0 = [x for x in walk_no_nested(r0[1]) if isinstance(x, ast.Return) and x.value is not None]
+                    for rt in rets0:
+                        em0 = any(elements_mutable(self.types.get(a.attr)) for a in ast.walk(rt.value) if isinstance(a, ast.Attribute) and dotted(a.value) == 'self')
+                        st, why = self.copy_status(rt.value, em0 or elem_mutable, depth + 1)
+                        if st != 'fresh':
+                            return st, f'{self.cls}.{f.attr}() returns {U(rt.value)}: {why}'
+                    if rets0:
+                        return 'fresh', f'{self.cls}.{f.attr}() builds new objects'
             # method call on a field of self: summarise the callee
             if isinstance(f, ast.Attribute) and isinstance(f.value, ast.Attribute) and dotted(f.value.value) == selfname:
                 fld = f.value.attr
@@ -952,6 +964,7 @@ def run(ctx: Any, prog: Program) -> None:
 
 
 MUTANTS = [
+    {'id': 'copy_values_returns_getstate', 'file': 'vmf.py', 'find': "        return [FixupValue(fix.var, fix.value, fix.id) for fix in self._fixup.values()]", 'replace': "        return self.__getstate__()", 'expect': 'C09.P2', 'note': 'round 13'},
     {'id': 'keyvalues_root_by_truthiness', 'file': 'keyvalues.py', 'find': "        return self._real_name is None\n", 'replace': "        return not self._real_name\n", 'expect': 'C09.P1', 'note': 'round 12', 'refuse_ok': True},
     {'id': 'solid_copy_group_only_same_map', 'file': 'vmf.py', 'find': "            self.hidden if keep_vis else False,\n            self.group_id,", 'replace': "            self.hidden if keep_vis else False,\n            self.group_id if vmf_file is None or vmf_file is self.map else None,", 'expect': 'C09.P1', 'note': 'round 11: carry-over conditional on the destination map'},
     {'id': 'kv_add_concatenates_own_children', 'file': 'keyvalues.py', 'find': "            copy = self.copy()\n            assert isinstance(copy._value, list)\n", 'replace': "            copy = Keyvalues.__new__(Keyvalues)\n            copy._real_name = self._real_name\n            copy._folded_name = self._folded_name\n            copy.line_num = self.line_num\n            copy._value = self._value + []\n", 'expect': 'C09.P4'},
